@@ -30,6 +30,9 @@ func corpus() []Replay {
 		{Kind: "corpus", Pre: 3, Progs: [][]Proc{{query([]int{0, 1, 2}, 2, -1)}}, Picks: []int{0, 0}},
 		// two truncates compete for the same partitions, one global
 		{Kind: "corpus", Pre: 2, Progs: [][]Proc{{trunc(both, nil, nil, true, -1)}, {trunc(both, both, []int{1}, false, -1)}}, Picks: []int{0, 1, 0, 1, 0, 1, 0, 1}},
+		// a deletion releases two spinners at once: GetJournal (no create) and a creating Write race for the tag line
+		{Kind: "corpus", Pre: 1, Progs: [][]Proc{{trunc([]int{0}, []int{0}, nil, false, -1)}, {gj(0), gj(0)}, {wr(0)}}, Picks: []int{0, 0, 1, 2, 0}},
+		{Kind: "corpus", Pre: 1, Progs: [][]Proc{{trunc([]int{0}, []int{0}, nil, false, -1)}, {wr(0)}, {gj(0), gj(0)}}, Picks: []int{0, 0, 1, 2, 0}},
 		// a waiting visit meets a partition that is locked, then deleted
 		{Kind: "corpus", Pre: 2, Progs: [][]Proc{{trunc(both, both, nil, false, -1)}, {visit(false, false, both, -1)}}, Picks: []int{1, 0, 0, 1, 0}},
 	}
